@@ -233,11 +233,13 @@ def check_case(case):
     scale = max(float(np.linalg.norm(ref)), 1e-3 * E)
     w = np.linalg.eigvalsh(F1.T @ F1)
     gap = float(min(abs(w[i] - w[j]) for i in range(3) for j in range(i))) / float(np.max(w))
-    # GreenLagrange: a few hundred ulps of |D| |E| |F|^2 / J.  Hencky: the handler converts the dual stress with
+    # GreenLagrange: 5e-9, a few thousand ulps of |D| |E| |F|^2 / J.  Hencky: the handler converts the dual stress with
     # divided differences (log a - log b)/(a - b) of the eigenvalues of C as soon as they differ by more than
     # 1e-14 (absolute): relative loss u/gap (measured 0.07 u/gap: 8e-4 at gap 2e-14): not judged below 20 u/gap
     # (DESIGN: "relaxed by 1/gap for nearly equal stretches").
-    tol = 1e-9 if sm == "gl" else 1e-8 + 20 * 2.2e-16 / max(gap, 1e-16)
+    # (GreenLagrange worst observed over 8 runs: 2.3e-11, cancellation lambda tr(E) 1 + 2 mu E for nu -> 0.45
+    # followed by the push-forward |F|^2/J <= 32)
+    tol = 5e-9 if sm == "gl" else 1e-8 + 20 * 2.2e-16 / max(gap, 1e-16)
     e = float(np.linalg.norm(got - ref)) / scale if np.all(np.isfinite(got)) else float("inf")
     mname = ["cauchy", "pk2", "pk1"][c1]
     errs["stress.%s.%s" % (sm, mname)] = e / tol
